@@ -19,6 +19,7 @@ def _get_driver(name):
             "scan": "harness.scandriver",
             "labels": "harness.labeldriver",
             "glob": "harness.globdriver",
+            "session": "harness.sessiondriver",
         }[name])
     return _DRIVERS[name]
 
